@@ -479,9 +479,17 @@ theorem split_returns_authentic_max_checked : SplitReturnsAuthenticMaxUnlessTx B
   obtain ⟨ha, hfrom, hmax⟩ := vault_authentic_any true true padKey key _ p hp
   exact ⟨p, hp, ha, by simpa [received] using hfrom, hmax⟩
 
-/-- The clause for the code as it is — conditional on the flags regenerated from `ant-networking/src/lib.rs` saying both
-address checks are there, so the statement stays checkable whichever of the repairs is in the tree. -/
-theorem vault_returns_authentic_max (padKey : Nat → Nat) (key : Nat) (m : List (Rec B))
+/-- The three repairs are in the source: the flags regenerated from `ant-networking/src/lib.rs` (scratchpad arm, register
+arm of `handle_split_record_error`) and `ant-networking/src/event/kad.rs` (transaction union only for all-transaction
+splits) are pinned here by `rfl` — reverting any of the repairs breaks this theorem and the unconditional corollaries
+below. -/
+theorem split_flags_as_repaired :
+    Gen.ClientRead.netSplitChecksPadKey = true ∧ Gen.ClientRead.netSplitRegChecksKey = true ∧
+      Gen.ClientRead.netAccMergeNeedsAllTx = true := ⟨rfl, rfl, rfl⟩
+
+/-- The clause for any tree in which the flags say both address checks are there (kept for the record of which repair
+each conclusion needs). -/
+theorem vault_returns_authentic_max_of_flags (padKey : Nat → Nat) (key : Nat) (m : List (Rec B))
     (hpadflag : Gen.ClientRead.netSplitChecksPadKey = true) (hregflag : Gen.ClientRead.netSplitRegChecksKey = true)
     (hcf : PadKeysDistinct padKey key m) (hnr : NoRegAtKey (padKey key) m) (hnt : ¬ TxDictates m)
     (hex : ∃ r ∈ m, ∃ q, padOf r = some q ∧ Authentic key q) :
@@ -490,6 +498,14 @@ theorem vault_returns_authentic_max (padKey : Nat → Nat) (key : Nat) (m : List
   unfold getVault getVaultWith
   rw [hpadflag, hregflag]
   exact split_returns_authentic_max_checked padKey key m hcf hnr hnt hex
+
+/-- The clause for the code as it is (flags pinned by `split_flags_as_repaired`, no flag hypothesis). -/
+theorem vault_returns_authentic_max (padKey : Nat → Nat) (key : Nat) (m : List (Rec B))
+    (hcf : PadKeysDistinct padKey key m) (hnr : NoRegAtKey (padKey key) m) (hnt : ¬ TxDictates m)
+    (hex : ∃ r ∈ m, ∃ q, padOf r = some q ∧ Authentic key q) :
+    ∃ p, getVault padKey key (.err (.split m)) = .ok p ∧ Authentic key p ∧ (∃ r ∈ m, padOf r = some p) ∧
+      ∀ q, ReceivedVersion (.err (.split m)) q → Authentic key q → q.ctr ≤ p.ctr :=
+  vault_returns_authentic_max_of_flags padKey key m split_flags_as_repaired.1 split_flags_as_repaired.2.1 hcf hnr hnt hex
 
 /-! ### From the holders' replies to the client: the swarm driver's split branch in between -/
 
@@ -523,15 +539,37 @@ records, chunks, forged and foreign pads one or more holders sent. With the thre
 from lib.rs / event/kad.rs) the driver hands the whole split up, the split handling does not let a foreign register or
 pad win, and the read returns an authentic version of the highest counter. -/
 theorem vault_read_survives_wrong_kind_reply_partial (padKey : Nat → Nat) (key : Nat) (m : List (Rec B))
-    (hpadflag : Gen.ClientRead.netSplitChecksPadKey = true) (hregflag : Gen.ClientRead.netSplitRegChecksKey = true)
-    (htxflag : Gen.ClientRead.netAccMergeNeedsAllTx = true)
     (hcf : PadKeysDistinct padKey key m) (hnr : NoRegAtKey (padKey key) m) (hnt : ¬ TxDictates m)
     (hex : ∃ r ∈ m, ∃ q, padOf r = some q ∧ Authentic key q) :
     ∃ p, getVault padKey key (kadSplitReply Gen.ClientRead.netAccMergeNeedsAllTx m) = .ok p ∧ Authentic key p ∧
       (∃ r ∈ m, padOf r = some p) ∧
       ∀ q, ReceivedVersion (.err (.split m)) q → Authentic key q → q.ctr ≤ p.ctr := by
-  rw [htxflag, kadSplitReply_of_pad m (by obtain ⟨r, hr, q, hq, _⟩ := hex; exact ⟨r, hr, q, hq⟩)]
-  exact vault_returns_authentic_max padKey key m hpadflag hregflag hcf hnr hnt hex
+  rw [split_flags_as_repaired.2.2, kadSplitReply_of_pad m (by obtain ⟨r, hr, q, hq, _⟩ := hex; exact ⟨r, hr, q, hq⟩)]
+  exact vault_returns_authentic_max padKey key m hcf hnr hnt hex
+
+/-- non-vacuity of the hypotheses and the conclusion: ONE holder's foreign validly signed register, sorting first, next to
+two authentic versions — the newer authentic version is read -/
+example : ∃ p, getVault (B := Nat) id 0 (kadSplitReply Gen.ClientRead.netAccMergeNeedsAllTx
+      [⟨some .register, .reg foreignReg⟩, ⟨some .scratchpad, .pad good⟩, ⟨some .scratchpad, .pad newer⟩]) = .ok p ∧ p = newer := by
+  obtain ⟨p, hp, _, _, hmax⟩ := vault_read_survives_wrong_kind_reply_partial (B := Nat) id 0
+    [⟨some .register, .reg foreignReg⟩, ⟨some .scratchpad, .pad good⟩, ⟨some .scratchpad, .pad newer⟩]
+    (by
+      intro r hr q hq hk
+      simp only [List.mem_cons, List.not_mem_nil, or_false] at hr
+      rcases hr with rfl | rfl | rfl
+      · simp [padOf] at hq
+      · simp only [padOf, Option.some.injEq] at hq; subst hq; exact hk
+      · simp only [padOf, Option.some.injEq] at hq; subst hq; exact hk)
+    (by
+      intro r hr g hg
+      simp only [List.mem_cons, List.not_mem_nil, or_false] at hr
+      rcases hr with rfl | rfl | rfl
+      · simp only [regOf, Option.some.injEq] at hg; subst hg; decide
+      · simp [regOf] at hg
+      · simp [regOf] at hg)
+    (by intro ht; exact absurd ht.1 (by decide))
+    ⟨_, List.mem_cons_of_mem _ List.mem_cons_self, good, rfl, rfl, rfl⟩
+  exact ⟨newer, rfl, rfl⟩
 
 /-! ### The write path's read (`get_or_create_scratchpad`): a failed read is not "no vault yet" -/
 
@@ -706,6 +744,8 @@ end SafeNet.Props.C15
 #print axioms SafeNet.Props.C15.vault_authentic
 #print axioms SafeNet.Props.C15.vault_returns_authentic_single
 #print axioms SafeNet.Props.C15.vault_returns_authentic_max
+#print axioms SafeNet.Props.C15.split_flags_as_repaired
+#print axioms SafeNet.Props.C15.vault_returns_authentic_max_of_flags
 #print axioms SafeNet.Props.C15.vault_read_survives_wrong_kind_reply_partial
 #print axioms SafeNet.Props.C15.split_foreign_register_hides_authentic_witness
 #print axioms SafeNet.Props.C15.split_tx_record_hides_authentic_witness
